@@ -58,7 +58,17 @@ func checkC13(r *Result) []Violation {
 	// bounded liveness: the run ended quiescent after the clock was advanced past the largest timeout; every
 	// caller must have returned by then
 	if r.Outcome != 0 {
-		return nil // step cap: inconclusive, counted by the worker
+		// The run did not reach quiescence within the step budget (hundreds of times what these scenarios need):
+		// something keeps spinning or waiting on something that never comes. If a caller is still waiting at
+		// that point the bounded-liveness clause is broken; otherwise the run is merely inconclusive.
+		for _, c := range collectCalls(r) {
+			if c.ret == nil {
+				return []Violation{{Prop: "C13", Rule: "C13.stranded_caller", Sig: "C13.stranded_caller:no_quiescence",
+					Msg: fmt.Sprintf("the system never became quiescent within %d scheduler steps and SendActiveMessage call %d (cmd=%#04x key=%s) had not returned; parked: %v blocked: %v",
+						r.Steps, c.n, c.call.PCmd, c.call.Key, r.Parked, r.Blocked), Step: c.call.Step}}
+			}
+		}
+		return nil
 	}
 	for _, c := range collectCalls(r) {
 		if c.ret != nil {
